@@ -994,6 +994,16 @@ pub fn run(ctx: &Ctx, prop: &str) {
         let tests = vec![(a.clone(), to(&a)), (Beh::Pass, None), (b.clone(), to(&b)), (Beh::Pass, None)];
         Some(e2e_case(prop, vec![EDoc { cram: false, broken: false, total: None, tests }], &tr, 10_000 + idx))
     });
+    // 3b'. a detached test case first, then every ordered pair, then a test case that times out: the results of the
+    // timeout path must belong to the right test cases (outputs and test cases stay aligned around detached ones)
+    let tr = tmproot.clone();
+    ctx.run_stream("e2e-detached-pair-timeout-exhaustive", nb * nb, true, |idx| {
+        let a = behs[(idx / nb) as usize].clone();
+        let b = behs[(idx % nb) as usize].clone();
+        let to = |x: &Beh| if matches!(x, Beh::Timeout) { Some(300) } else { None };
+        let tests = vec![(Beh::Detached, None), (a.clone(), to(&a)), (b.clone(), to(&b)), (Beh::Timeout, Some(300)), (Beh::Pass, None)];
+        Some(e2e_case(prop, vec![EDoc { cram: false, broken: false, total: None, tests }], &tr, 30_000 + idx))
+    });
     let cbehs = [Beh::Pass, Beh::PassCode(2), Beh::BadOut, Beh::BadCode(3), Beh::Skip(None), Beh::ExitShell(3), Beh::ExitShell(80), Beh::ExitShell(0)];
     let tr = tmproot.clone();
     let ncb = cbehs.len() as u64;
